@@ -343,3 +343,23 @@ PLANS["C16"] = {
             "ArithLogic::mkConst; TLC reads every string with the reference reader NumLit.tla (BigInt) and compares accept/reject and value; "
             "non-trivial = more than three literals were accepted",
 }
+
+PLANS["C27"] = {
+    "jobs": lambda seed, tier: spread(seed, "C27", N(tier, 150, 3000), ["QF_LIA", "QF_LIA", "QF_IDL", "QF_LIA", "QF_UFLIA"], "rounding"),
+    "mc": [{"module": "MC_IntRound"}],
+    "remap": lambda v: "C27" if v.get("p") in ("C01", "C02", "C03", "C04") else v.get("p"),
+    "rule": "boxed LIA/IDL scripts whose answers hinge on rounding: div and mod by constants of both signs (variables and constant folding), "
+            "strict bounds with non-unit coefficients, equalities needing gcd reasoning, negated difference constraints; every check-sat "
+            "is decided exactly by the kernel's exhaustive grid, models and get-value results are evaluated; the identities themselves "
+            "are checked by TLC in MC_IntRound on -24..24 x divisors -7..7",
+}
+
+PLANS["C17"] = {
+    "jobs": lambda seed, tier: spread(seed, "C17", N(tier, 140, 2800), MODEL_LOGICS + ["QF_AX", "QF_ALIA"], "printing"),
+    "remap": lambda v: "C17" if (v.get("p") == "C17" or (v.get("kind") == "readback" and v.get("p") in ("C01", "C18", "C03"))) else v.get("p"),
+    "level": "exploration",
+    "rule": "symbols that need quoting, clash with reserved words or with generated parameter names (x!0), values of uninterpreted sorts; every "
+            "printed model, get-value answer (values and echoed terms), full unsat core and interpolant is read by the strict SMT-LIB reader; the "
+            "printed model is then given back to a fresh solver as define-funs together with the assertions, which must be accepted and satisfiable "
+            "(the specification evaluates the assertions under the read definitions); non-trivial = something was printed and read",
+}
